@@ -54,6 +54,9 @@ Definition registeredb (init : registry) (ops : list op) (n : bytes) : bool :=
   memb n (map fst init)
   || existsb (fun o => match o with OReg m _ => bytes_eqb m n | _ => false end) ops.
 
+Definition reg_names (ops : list op) : list bytes :=
+  flat_map (fun o => match o with OReg n _ => [n] | _ => [] end) ops.
+
 Definition listing_ok (init : registry) (ops : list op) (l : list bytes) : bool :=
   sortedb l && nodupb l
   && forallb (registeredb init ops) l
@@ -70,6 +73,18 @@ Definition builtin_names : list bytes :=
     [117;116;102;56;45;104;101;97;118;121];                          (* utf8-heavy *)
     [117;116;102;56;45;100;111;117;98;108;101] ].                    (* utf8-double *)
 Local Close Scope N_scope.
+
+Definition four_names : list bytes := [s_csv; s_html; s_json; s_markdown].
+
+(* the listing: sorted; the four sub-package names and every registered name
+   are there; nothing else is; duplicate-free unless a registered name is one
+   of the four *)
+Definition styles_listing_ok (registered_names : list bytes) (l : list bytes) : bool :=
+  sortedb l
+  && forallb (fun n => memb n l) four_names
+  && forallb (fun n => memb n l) registered_names
+  && forallb (fun n => memb n four_names || memb n registered_names) l
+  && (nodupb l || existsb (fun n => memb n four_names) registered_names).
 
 Definition res_eqb_ {A} (eqb : A -> A -> bool) (a b : res A) : bool :=
   match a, b with
@@ -91,18 +106,25 @@ Section Spec.
     if dec_is_empty d then Ok ([], true)
     else match body d with Ok b => Ok (b, false) | Err => Ok ([], true) | Panic => Panic end.
 
-  (* decorations of the tables goroutine g made, in order; pre = operations
-     (of everybody) before rest *)
-  Fixpoint set_decs (init : registry) (g : nat) (pre : list op) (rest : list (nat * op)) : list decoration :=
-    match rest with
-    | [] => []
-    | (h, o) :: r =>
-        let tl := set_decs init g (pre ++ [o]) r in
-        match o with
-        | OSet n => if Nat.eqb h g then spec_named init pre n :: tl else tl
-        | _ => tl
-        end
-    end.
+  (* decorations held by the tables goroutine g made, in order, after history
+     bef: a fold carrying (the operations so far, the tables' decorations) *)
+  Definition tab_step (init : registry) (g : nat) (acc : list op * list decoration) (a : nat * op)
+    : list op * list decoration :=
+    (fst acc ++ [snd a],
+     if Nat.eqb (fst a) g then
+       match snd a with
+       | OSet n => snd acc ++ [spec_named init (fst acc) n]
+       | OReSet k n => set_nth k (spec_named init (fst acc) n) (snd acc)
+       | OSetDec k d => set_nth k d (snd acc)
+       | _ => snd acc
+       end
+     else snd acc).
+
+  Definition tab_fold (init : registry) (g : nat) (bef : list (nat * op)) : list op * list decoration :=
+    fold_left (tab_step init g) bef ([], []).
+
+  Definition tab_decs (init : registry) (g : nat) (bef : list (nat * op)) : list decoration :=
+    snd (tab_fold init g bef).
 
   Definition obs_eqb (a b : obs) : bool :=
     let r_eqb := res_eqb_ (fun x y : bytes * bool => bytes_eqb (fst x) (fst y) && Bool.eqb (snd x) (snd y)) in
@@ -123,10 +145,22 @@ Section Spec.
     | OReg _ _ => obs_eqb v VUnit
     | ONamed n => obs_eqb v (VDec (spec_named init ops n))
     | ONames => match v with VNames l => listing_ok init ops l | _ => false end
+    | OStyles => match v with VNames l => styles_listing_ok (map fst init ++ reg_names ops) l | _ => false end
     | OSet n => let d := spec_named init ops n in obs_eqb v (VSet (dec_is_empty d) (spec_render d))
     | ORender k =>
-        match nth_error (set_decs init (fst a) [] bef) k with
+        match nth_error (tab_decs init (fst a) bef) k with
         | Some d => obs_eqb v (VRender (spec_render d))
+        | None => obs_eqb v VNone
+        end
+    | OReSet k n =>
+        (* the lookup is made anew, whatever the table held or was selected by before *)
+        match nth_error (tab_decs init (fst a) bef) k with
+        | Some _ => let d := spec_named init ops n in obs_eqb v (VSet (dec_is_empty d) (spec_render d))
+        | None => obs_eqb v VNone
+        end
+    | OSetDec k d =>
+        match nth_error (tab_decs init (fst a) bef) k with
+        | Some _ => obs_eqb v (VRender (spec_render d))
         | None => obs_eqb v VNone
         end
     end.
@@ -165,9 +199,13 @@ Section Spec.
       end) R
     || (expect (init_named init n) && negb (existsb (fun r => N.ltb (e_e r) (e_s e)) R)).
 
-  Definition conc_listing_ok (init : registry) (H : list event) (l : list bytes) (e : event) : bool :=
-    sortedb l && nodupb l
-    && forallb (fun n => memb n (map fst init)
+  (* extra = names every such listing has besides the registered ones (the
+     four sub-package names for auto.ListStyles, which may then repeat a
+     registered name: dupfree = false) *)
+  Definition conc_listing_ok (extra : list bytes) (dupfree : bool) (init : registry) (H : list event) (l : list bytes) (e : event) : bool :=
+    sortedb l && (if dupfree then nodupb l else true)
+    && forallb (fun k => memb k l) extra
+    && forallb (fun n => memb n extra || memb n (map fst init)
                          || existsb (fun w => match reg_of n w with Some _ => N.leb (e_s w) (e_e e) | None => false end) H) l
     && forallb (fun k => memb k l) (map fst init)
     && forallb (fun w => match e_op w with
@@ -178,9 +216,12 @@ Section Spec.
     match e_op e with
     | OReg _ _ => obs_eqb (e_obs e) VUnit
     | ONamed n => read_ok init H n (fun d => obs_eqb (e_obs e) (VDec d)) e
-    | ONames => match e_obs e with VNames l => conc_listing_ok init H l e | _ => false end
+    | ONames => match e_obs e with VNames l => conc_listing_ok [] true init H l e | _ => false end
+    | OStyles => match e_obs e with VNames l => conc_listing_ok four_names false init H l e | _ => false end
     | OSet n => read_ok init H n (fun d => obs_eqb (e_obs e) (VSet (dec_is_empty d) (spec_render d))) e
-    | ORender _ => true     (* local to a goroutine; judged on sequential histories *)
+    | OReSet _ n => obs_eqb (e_obs e) VNone
+                    || read_ok init H n (fun d => obs_eqb (e_obs e) (VSet (dec_is_empty d) (spec_render d))) e
+    | ORender _ | OSetDec _ _ => true     (* local to a goroutine; judged on sequential histories *)
     end.
 
   Definition C17_obs_ok (init : registry) (H : list event) : bool := forallb (event_ok init H) H.
@@ -230,15 +271,3 @@ Section AutoSpec.
   Definition texttable_dotted (s : bytes) : bool :=
     bytes_eqb (lower (first_section s)) s_texttable && Nat.ltb 1 (length (dotted_prefixes s)).
 End AutoSpec.
-
-Definition four_names : list bytes := [s_csv; s_html; s_json; s_markdown].
-
-(* the listing: sorted; the four sub-package names and every registered name
-   are there; nothing else is; duplicate-free unless a registered name is one
-   of the four *)
-Definition styles_listing_ok (registered_names : list bytes) (l : list bytes) : bool :=
-  sortedb l
-  && forallb (fun n => memb n l) four_names
-  && forallb (fun n => memb n l) registered_names
-  && forallb (fun n => memb n four_names || memb n registered_names) l
-  && (nodupb l || existsb (fun n => memb n four_names) registered_names).
